@@ -176,15 +176,15 @@ Lemma call_nonnil r e :
              | None => OLost
              end.
 Proof.
-  intros H. unfold call, invoke. rewrite H. cbn [respond andb]. rewrite H. reflexivity.
+  intros H. unfold call, settle, invoke. rewrite H. cbn [respond andb]. rewrite H. reflexivity.
 Qed.
 
 Lemma call_nil_ok raw e : is_nil e = true -> call (ResJson raw) e = OResult raw.
-Proof. intros H. unfold call, invoke. rewrite H. reflexivity. Qed.
+Proof. intros H. unfold call, settle, invoke. rewrite H. reflexivity. Qed.
 
 Lemma call_nil_bad why e : is_nil e = true -> call (ResBad why) e = call (ResJson []) why.
 Proof.
-  intros H. unfold call, invoke. rewrite H.
+  intros H. unfold call, settle, invoke. rewrite H.
   destruct (is_nil why) eqn:Hw; cbn [respond andb]; rewrite Hw; reflexivity.
 Qed.
 
@@ -668,6 +668,50 @@ Proof.
   rewrite Hw. rewrite from_wire_other by (cbn [we_code]; assumption).
   cbn [we_code we_msg we_data]. unfold code_err. cbn [error_text].
   rewrite (sanitize_ascii _ (code_string_ascii c)). reflexivity.
+Qed.
+
+(* ---- the state of the request's context does not matter ------------------------------------------------------- *)
+
+Local Open Scope Z_scope.
+
+(* the reply depends only on what the handler returned: cancelling the request (or its
+   deadline passing) before the handler returns its error does not replace that error *)
+Lemma cancellation_does_not_replace_error cs r e : call_ctx true cs r e = call r e.
+Proof. reflexivity. Qed.
+
+(* in particular a *Error still arrives as it is, and codes are still preserved *)
+Lemma error_verbatim_ctx cs r c m d d' :
+  c <> Cancelled -> c <> DeadlineExceeded -> valid_utf8 m = true -> wire_data d = Some d' ->
+  call_ctx true cs r (EJrpc c m d) = OErr (EJrpc c m d').
+Proof.
+  intros H1 H2 Hm Hd. rewrite cancellation_does_not_replace_error.
+  exact (proj1 (error_verbatim r c m d d' H1 H2 Hm Hd)).
+Qed.
+
+Lemma code_preserved_ctx cs r e :
+  is_nil e = false -> code_dom e = true -> outcome_code (call_ctx true cs r e) = Some (error_code e).
+Proof. intros Hn Hd. rewrite cancellation_does_not_replace_error. exact (code_preserved r e Hn Hd). Qed.
+
+Example cancellation_nonvacuous :
+  call_ctx true CtxCanceled (ResJson [49]%N) (EJrpc 7 [109]%N [49]%N) = OErr (EJrpc 7 [109]%N [49]%N) /\
+  call_ctx true CtxDeadline (ResJson [49]%N) (EPlain [112]%N) = OErr (EJrpc SystemError [112]%N []) /\
+  call_ctx true CtxCanceled (ResJson [49]%N) enil = OResult [49]%N /\
+  7 <> Cancelled /\ 7 <> DeadlineExceeded /\ valid_utf8 [109]%N = true /\ wire_data [49]%N = Some [49]%N /\
+  code_dom (EPlain [112]%N) = true.
+Proof. vm_compute. repeat split; discriminate. Qed.
+
+(* the variant in which a done context replaces the handler's error breaks every clause:
+   the *Error is lost and the code changes; a successful result is not affected *)
+Lemma cancellation_refuted_if_replaced :
+  let e := EJrpc 7 [109]%N [49]%N in
+  (forall r, call_ctx false CtxCanceled r e = OErr ECanceled) /\
+  (forall r, call_ctx false CtxDeadline r e = OErr EDeadline) /\
+  (forall r, outcome_code (call_ctx false CtxCanceled r e) <> Some (error_code e)) /\
+  (forall cs r, call_ctx false cs r enil = call r enil) /\
+  (forall r e', call_ctx false CtxLive r e' = call r e').
+Proof.
+  cbn zeta. repeat split; intros; try reflexivity; try discriminate.
+  unfold call_ctx, call, invoke_ctx, invoke. destruct (is_nil e'); reflexivity.
 Qed.
 
 (* ---- non-vacuity of the remaining implications ------------------------------------------------------------------ *)
